@@ -41,6 +41,13 @@ def build_cycle(rng, template, Kn, M, trigger):
                        "on": {"LOOP": [{"guard": "g_more", "actions": [_mk("tr.T1", acts), INC, {"type": "xstate.raise", "params": {"event": {"type": "LOOP"}}}]}]}}
         loop_entry = "A"
         per_round = 1
+    elif template == "raise_fan":
+        # every round raises TWO events: depth grows by one per round, the number of events doubles
+        R = {"type": "xstate.raise", "params": {"event": {"type": "LOOP"}}}
+        states["A"] = {"entry": [_mk("en.m.A", acts), R], "exit": [_mk("ex.m.A", acts)],
+                       "on": {"LOOP": [{"guard": "g_more", "actions": [_mk("tr.T1", acts), INC, R, dict(R)]}]}}
+        loop_entry = "A"
+        per_round = 1
     elif template == "raise_reenter":
         states["A"] = {"entry": [_mk("en.m.A", acts), {"type": "xstate.raise", "params": {"event": {"type": "LOOP"}}}],
                        "exit": [_mk("ex.m.A", acts)],
@@ -73,7 +80,7 @@ def gen_c13(engine):
     def g(seed):
         import random
         rng = random.Random(seed * 7919 + 13)
-        template = rng.choice(("always", "always_self", "raise", "raise_reenter", "ondone", "pure_self", "enq_self"))
+        template = rng.choice(("always", "always_self", "raise", "raise_reenter", "raise_fan", "ondone", "pure_self", "enq_self"))
         M = rng.choice((3, 4, 5, 8, 12, 20, 40))
         rel = rng.choice(("below", "below", "edge-", "edge", "edge+", "above", "endless"))
         Kn = {"below": max(1, M - 2 - rng.randint(0, max(0, M - 3))), "edge-": max(1, M - 2), "edge": M, "edge+": M + 1,
